@@ -3,7 +3,7 @@ import random, re, itertools
 from collections import Counter
 import common, gen, pool, drv
 
-THEOREMS = ["Enc.step_soundE", "Enc.core_soundE", "Enc.notEmpty_of_nodup", "Enc.consume_produceP", "Enc.store_exactly_once", "Enc.store_store_order", "Enc.store_load_order", "Enc.load_store_order", "Enc.l_exactly_once", "Enc.l_order",
+THEOREMS = ["Enc.encoding_sound_direct", "Enc.core_realizesE", "Enc.step_soundE", "Enc.core_soundE", "Enc.notEmpty_of_nodup", "Enc.consume_produceP", "Enc.store_exactly_once", "Enc.store_store_order", "Enc.store_load_order", "Enc.load_store_order", "Enc.l_exactly_once", "Enc.l_order",
             "Enc.raw_sat_of_built", "Enc.thetaInj_int", "Enc.thetaInj_uf", "Enc.step_sound", "Enc.core_sound", "Enc.core_sound_built", "Enc.runSym_of_runVal", "Enc.core_realizes", "Enc.inj_of_nodup",
             "Enc.inj_uf", "Enc.inj_stackVars", "Enc.inj_int", "Formula.build_eval"]
 ENC_OPTION_SETS = [[], ["-term-encoding", "int"], ["-term-encoding", "stack_vars"], ["-term-encoding", "uninterpreted_int"],
@@ -178,7 +178,7 @@ def enc_correspondence(tier, rng, c, violations, soft_out=None):
 def run(tier):
     sd = common.seed()
     rng = random.Random(sd * 3571 + 47)
-    po = common.proof_obligations("GasolVerif.Proofs.EncodingOrderSound,GasolVerif.Proofs.EncodingEmptySound", THEOREMS)
+    po = common.proof_obligations("GasolVerif.Proofs.EncodingCapstone", THEOREMS)
     violations = [{"kind": "broken-proof-obligation", "what": b, "no_failing_input": True, "input": b} for b in po["broken"]]
     c = Counter()
     enc_correspondence(tier, random.Random(sd * 977 + 5), c, violations)
